@@ -35,6 +35,11 @@ CHECKS = {
    text="Same model as C03 (MC_Rollback chains rotating timestamp keys, snapshot keys, overlapping sets, none); TLC checks RecoversAfterRotation for every history; replays use concrete versions 1, 2^40, 2^63-1; traces validated by TLC. The F2 facet (cycle started from a shipped root other than the one trusted last) is a recorded finding.",
    note="Trusted: as C03. 'Replaces the keys' is read as a net change of the key set between the root of the previous successful cycle and the final root of this cycle.",
    technique="TLA+ model (TLC exhaustive) + replay with inflated versions + TLC trace validation"),
+
+ "C15": dict(cat="fault_enumeration", design="5 C15",
+   text="TufStore.tla unfolds the datastore traffic of one update cycle into its file-system calls (35 on this tree; the sequence is read from an LD_PRELOAD shim and compared with the model) and enables a crash after any call and a failure of any open/write/rename; TLC checks RollbackSurvives and NoLockout over every (fault, follow-up repository) pair. Every TLC case is executed for real: cycle 1 in-process, the interrupted cycle in a child process under the shim (SIGKILL before/after the n-th call, ENOSPC, EIO), then the follow-up cycle; the property is evaluated on the observed datastore and result.",
+   note="Trusted: TLC; the shim sees libc-level calls only (a rename issued as a raw syscall by tempfile::persist is bracketed by the calls around it); process death and failing calls, not power loss. Cycle without delegations, enforcement on.",
+   technique="TLA+ model of crash points (TLC exhaustive) + fault injection at every datastore call of the real client"),
 }
 NA_REASON = "check not built yet in this round (planned, see DESIGN.md section 5); not claimed"
 
